@@ -190,10 +190,128 @@ def machine_part(ck, items, tier):
     trace_validate(ck, tcases, label='C04 memo capacities')
 
 
+def memo_table(ck, items, tier):
+    """The memo table itself: spec/MemoCache.tla model-checked (the code's design proved, a true LRU and a wrong-end eviction refuted),
+    every edge of its state graph replayed onto a real BoundedDict through the real context methods, and the memo operations of real
+    parses under tiny capacities validated by TLC against spec/MemoTrace.tla (corrupted copies must be rejected)."""
+    import concurrent.futures as cf
+    import os
+    from .. import memoreplay as mr
+    from ..common import pmap
+    d = tlc.scratch_dir('memo')
+    caps = '{1, 2}' if tier == 'quick' else '{1, 2, 3}'
+    base = ('CONSTANTS Positions = {0, 1, 2}\nRules = {"m", "n"}\nCaps = %s\nRefreshOnRead = %s\nEvictYoung = %s\nSPECIFICATION Spec\n'
+            'CHECK_DEADLOCK FALSE\n')
+    invs = ''.join(f'INVARIANT {i}\n' for i in ('TypeOK', 'Bounded', 'NoDupKeys', 'Sound', 'YoungestKept', 'NothingBeforeCut', 'UpdateIsStores')) \
+        + 'PROPERTY OnlyStoreAdds\nPROPERTY LookupPure\n'
+    cfgs = {}
+    for name, lru, young, tail in (('code', 'FALSE', 'FALSE', invs), ('lru', 'TRUE', 'FALSE', invs), ('evictyoung', 'FALSE', 'TRUE', invs),
+                                   ('graph', 'FALSE', 'FALSE', 'VIEW GraphView\n')):
+        cfgs[name] = os.path.join(d, f'memocache_{name}.cfg')
+        open(cfgs[name], 'w').write(base % (caps if name in ('code', 'graph') else '{1, 2}', lru, young) + tail)
+    dot = os.path.join(d, 'memograph')
+    with cf.ThreadPoolExecutor(max_workers=4) as ex:
+        fcode = ex.submit(tlc.run_tlc, 'MemoCache', cfg=cfgs['code'], workers=8, timeout=1200)
+        flru = ex.submit(tlc.run_tlc, 'MemoCache', cfg=cfgs['lru'], workers=2, timeout=600)
+        fyoung = ex.submit(tlc.run_tlc, 'MemoCache', cfg=cfgs['evictyoung'], workers=2, timeout=600)
+        fgraph = ex.submit(tlc.run_tlc, 'MemoCache', cfg=cfgs['graph'], workers=1, dump_dot=dot, timeout=600)
+        rcode, rlru, ryoung = fcode.result(), flru.result(), fyoung.result()
+        fgraph.result()
+    ck.add_tlc(rcode, f'MemoCache (the table as coded, capacities {caps}, pruning and memoization on and off)')
+    if rcode.violated:
+        ck.violation({'kind': 'schedule', 'inputs': {'spec': 'MemoCache'}, 'expected': 'the invariants of the memo table hold', 'observed': rcode.violated,
+                      'trace': rcode.trace[:40], 'spec': 'MemoCache!' + str(rcode.violated)}, key='memocache' + str(rcode.violated))
+    ck.notes['memo_table_true_lru_refuted_by'] = rlru.violated
+    ck.notes['memo_table_young_end_eviction_refuted_by'] = ryoung.violated
+    if not rlru.violated or not ryoung.violated:
+        raise tlc.MachineryError('MemoCache: a design switch is not refuted (vacuous model)')
+    # spec -> code
+    jobs, st = mr.graph_jobs(dot + '.dot', nchunks=32)
+    outs = pmap(mr.replay_job, jobs, procs=16, chunk=1, recycle=1)
+    steps = sum(o['steps'] for o in outs)
+    ck.count(evaluations=st['edges'], traces=st['edges'], nontrivial=sum(o['evictions'] for o in outs))
+    ck.notes['memo_table_graph'] = dict(st, replayed_steps=steps, evictions_observed=sum(o['evictions'] for o in outs))
+    if sum(o['capacity_unexpected'] for o in outs) > st['states'] // 2 or steps < st['edges']:
+        raise tlc.MachineryError(f'MemoCache replay: only {steps} steps for {st["edges"]} edges (capacity of the real table not as configured?)')
+    for o in outs:
+        for b in o['bad']:
+            ck.violation({'kind': 'history', 'inputs': {'configuration': b['cfg'], 'operations': b['history'],
+                                                        'text_variant': 'one line, perlinememos = capacity' if not b['variant'] else 'capacity lines'},
+                          'expected': b['expected'], 'observed': b['observed'],
+                          'why': 'the memo table of a real parse context (oldest entry first) differs from the specification after this operation',
+                          'spec': 'MemoCache!Next'}, key='memoreplay' + str(b['history'][-1][0]) + str(b['cfg']['cap']))
+    # code -> spec
+    rnd = random.Random(4400 + ck.seed)
+    pool = [it for it in items if not (it.get('case') or {}).get('sem') and not it.get('settings')]
+    rnd.shuffle(pool)
+    pool = pool[:220 if tier == 'quick' else 1500]
+    rcases = []
+    for k, it in enumerate(pool):
+        texts = [''.join(t) for t in it['texts'] if 2 <= len(t) <= 7]
+        rnd.shuffle(texts)
+        rcases.append({'ebnf': to_ebnf(it['g']), 'texts': texts[:5], 'settings_idx': [k % 3, 3 + k % 4]})
+    recs = [r for rs in pmap(mr.record_case, rcases, procs=16, chunk=4, recycle=40) for r in rs]
+    good = [r for r in recs if len(r['ev']) >= 4]
+    cpool = [r for r in good if any(e['op'] == 'lookup' and e['val'] not in ('none', 'guard') for e in r['ev'])]
+    corrupted = [mr.corrupt(r, k) for k, r in enumerate(cpool[::max(1, len(cpool) // 40)])]
+    allr = good + corrupted
+    nshards = 12
+    shards = [allr[i::nshards] for i in range(nshards)]
+    with cf.ThreadPoolExecutor(max_workers=nshards) as ex:
+        results = list(ex.map(mr.tlc_group, [(d, i, sh) for i, sh in enumerate(shards) if sh]))
+    nacc = rejected = 0
+    hits = evict = 0
+    for sh, r in zip([s for s in shards if s], results):
+        ck.add_tlc(r, f'MemoTrace ({len(sh)} executions)')
+        if r.violated:
+            ck.violation({'kind': 'trace', 'inputs': {'spec': 'MemoTrace', 'executions': [x['_case'] for x in sh if '_case' in x][:4]},
+                          'expected': "MemoCache's invariants hold in every state of every observed execution", 'observed': r.violated,
+                          'trace': r.trace[:60], 'spec': 'MemoCache!' + str(r.violated)}, key='memotrinv' + str(r.violated))
+            continue
+        acc = r.res.get('accepted')
+        if not acc:
+            raise tlc.MachineryError('MemoTrace produced no acceptance report:\n' + r.stdout[-1500:])
+        accepted = set(acc['accepted']) if isinstance(acc['accepted'], list) else set()
+        for i, rec in enumerate(sh, 1):
+            reached = acc['reached'][i - 1] if isinstance(acc['reached'], list) else 0
+            if '_corrupt' in rec:
+                if i in accepted:
+                    ck.notes.setdefault('memo_corruptions_not_rejected', []).append(rec['_corrupt'])
+                else:
+                    rejected += 1
+                continue
+            ck.count(evaluations=1, traces=1, nontrivial=1 if len(rec['ev']) > 10 else 0)
+            if i in accepted:
+                nacc += 1
+                hits += sum(1 for e in rec['ev'] if e['op'] == 'lookup' and e['val'] != 'none')
+                evict += sum(1 for a, b in zip(rec['ev'], rec['ev'][1:]) if b['op'] == 'store' and b['len'] <= a['len'] and b['len'] == rec['cap'])
+                continue
+            ck.violation({'kind': 'trace', 'inputs': dict(rec['_case'], capacity=rec['cap'], prune=rec['prune'], memoization=rec['memoization'],
+                                                         nonmemo=rec['nonmemo']),
+                          'expected': 'the memo operations of the parse are a behaviour of MemoCache',
+                          'observed': {'events_matched': max(0, reached - 1), 'of': len(rec['ev']),
+                                       'around_rejection': rec['ev'][max(0, reached - 4):reached + 1]},
+                          'why': 'memo operations of a real parse rejected by MemoTrace (a lookup answered with something other than the last value '
+                                 'stored under that key, or the table kept / dropped an entry the specification does not)',
+                          'spec': 'MemoTrace!TNext'},
+                         key='memotrrej' + rec['_case']['ebnf'] + str(rec['_case']['settings']))
+    ck.notes['memo_executions_validated'] = nacc
+    ck.notes['memo_trace_events'] = sum(len(r['ev']) for r in good)
+    ck.notes['memo_trace_hits'] = hits
+    ck.notes['memo_trace_stores_at_full_capacity'] = evict
+    ck.notes['memo_corruptions_rejected'] = f'{rejected}/{len(corrupted)}'
+    if corrupted and rejected < len(corrupted):
+        raise tlc.MachineryError(f'MemoTrace binding self-test: only {rejected} of {len(corrupted)} corrupted traces were rejected: '
+                                 f"{ck.notes.get('memo_corruptions_not_rejected')}")
+    if not ck.violations and (nacc < 200 or hits < 50):
+        raise tlc.MachineryError(f'only {nacc} memo executions validated ({hits} hits): vacuous')
+
+
 def run(tier):
     ck = Check('C04', tier)
     items = universe(tier, ck.seed)
     machine_part(ck, items, tier)
+    memo_table(ck, items, tier)
     jobs, cases = Jobs(), []
     rcl, cls = tlc_classify([it['g'] for it in items])
     ck.add_tlc(rcl, 'PegUnspec')
